@@ -73,7 +73,11 @@ func (comp DefaultCompiler) Compile(stmts []*gripql.GraphStatement, opts *gdbi.C
 	ps := pipeline.NewPipelineState(stmts)
 	if opts != nil {
 		ps.LastType = opts.PipelineExtension
-		ps.MarkTypes = opts.ExtensionMarkTypes
+		// the extension gets its own copy: an `as` step of the extension must not
+		// re-type the marks of the stored job the options came from
+		for k, v := range opts.ExtensionMarkTypes {
+			ps.MarkTypes[k] = v
+		}
 	}
 
 	procs := make([]gdbi.Processor, 0, len(stmts))
